@@ -304,8 +304,69 @@ def run(tier):
                                    "`%s` replaces order_responses wholesale: delivered responses of other outstanding orders are dropped" % f.parent)
 
     wake_up_rule(fx, ck, "R5.wake-up")
+    cancel_once_rule(fx, ck)
 
     # R6 siblings
     import c19
     c19.sibling_vmresult_mappers(fx, ck, "R6.mapper-siblings")
     return ck.finish()
+
+
+def cancel_once_rule(fx, ck, name="R7.cancel-once", scope_prefix="interpreter::", interp=INTERP):
+    """R7: a cancellation is put on the ledger behind a once-only latch.
+
+    Settling is idempotent for the program ("already settled: ignore") but the handlers that run on a settlement are called for
+    every input that settles, also after the outcome is decided.  Every push onto `cancelled_orders` must therefore be dominated by
+    the passing edge of a test that cannot pass twice: `Cell<bool>::get()` / `replace(true)` of a latch that the same function sets,
+    or a comparison of a promise `status` with `Pending` that is followed by a write of that status."""
+    from c09 import edge_dominates, ancestors
+    from c18 import true_edge
+    ck.rule(name, "every push onto cancelled_orders is dominated by the passing edge of a once-only test (a latch the function sets, or status == Pending "
+                  "followed by a status write)", floor=2)
+    for p, f in sorted(fx.fns.items()):
+        if not p.startswith(scope_prefix):
+            continue
+        pushes = []
+        for bi, t in f.calls():
+            if not (t[1].get("d") or "").endswith(("Vec::<T, A>::push", "Vec::<T, A>::extend", "Vec::<T, A>::insert", "::extend_from_slice", "Vec::<T, A>::append")):
+                continue
+            if not t[2] or t[2][0][0] not in ("c", "m"):
+                continue
+            d = M.trace_back(f, t[2][0][1][0])
+            if d and d[1] != "T" and d[2][0] == "ref" and any(a == interp and n == "cancelled_orders" for a, v, n in F.place_fields(d[2][2])):
+                pushes.append((bi, t))
+        if not pushes:
+            continue
+        latches = []   # (passing edge block, description)
+        for bi, t in f.calls():
+            d = t[1].get("d") or ""
+            if d.endswith(("Cell::<T>::get", "Cell::<T>::replace")) and fx.tys(f.locals[t[3][0]]) == "bool":
+                te = true_edge(f, bi)
+                if not te:
+                    continue
+                sets = d.endswith("replace") or any((t2[1].get("d") or "").endswith(("Cell::<T>::set", "Cell::<T>::replace")) and
+                                                    (f.dominates(te[1], b2)) for b2, t2 in f.calls() if b2 != bi)
+                if sets:
+                    latches.append((te[1], "latch (Cell<bool>)"))
+            u = t[1].get("u") or ""
+            if u.endswith(("PartialEq::ne", "PartialEq::eq")) and t[2] and any(
+                    a[0] in ("c", "m") and any(n == "status" for l in ancestors(f, a[1][0]) for db, si, rv in f.defs().get(l, []) if si != "T"
+                                                for pl in F.rvalue_places(rv) for _, _, n in F.place_fields(pl)) for a in t[2]):
+                te = true_edge(f, bi)
+                if not te:
+                    continue
+                passing = te[1] if u.endswith("ne") else te[0]
+                writes = [b2 for b2, bl in enumerate(f.blocks) for st in bl["s"] if st[0] == "a" and st[1][1] and isinstance(st[1][1][-1], list)
+                          and st[1][1][-1][0] == "f" and st[1][1][-1][2] == "status" and f.dominates(passing, b2)]
+                if writes:
+                    latches.append((passing, "status == Pending, then status written"))
+        for bi, t in pushes:
+            hit = [dsc for eb, dsc in latches if edge_dominates(f, eb, bi)]
+            ok = bool(hit)
+            ck.instance(name, "%s: cancelled_orders.%s behind %s" % (p, (t[1].get("d") or "").split("::")[-1], hit[0] if hit else "nothing"),
+                        F.short_span(t[6]), ok=ok)
+            if not ok:
+                ck.finding(name, "%s/%s" % (name, p), F.short_span(t[6]),
+                           "`%s` puts order ids on `cancelled_orders` on a path that is not behind a once-only test: when the function runs again "
+                           "for a later settlement (a race loser the host fulfils anyway, a second reject) the host is told again, and about orders "
+                           "that completed" % p)
